@@ -149,7 +149,7 @@ def excluded_features() -> set[str]:
 
 
 def shards(tier: str, seed: int) -> list[dict]:
-    n_sh, per = (16, 120) if tier == "quick" else (48, 1200)
+    n_sh, per = (16, 120) if tier == "quick" else (48, 700)
     return [{"seed": seed * 1000 + i, "n": per} for i in range(n_sh)]
 
 
